@@ -535,6 +535,7 @@ fn base_case(edges: Vec<(usize, usize, f64)>, n_v: usize, source: usize, target:
         svc: None,
         term_via_builder: false,
         svc_unknown_weight: false,
+        app: Default::default(),
     }
 }
 
